@@ -109,6 +109,9 @@ def pit(obs, ens, random=False, cst=0.3, kind="rank", censor=0.):
     obs, ens, nforc, nens = __check_ensemble_data(obs, ens)
 
     # Check sudo pits
+    # (threshold in double precision: censor+EPS equals censor
+    #  for a single precision threshold)
+    censor = np.float64(censor)
     is_sudo = np.zeros(nforc).astype(bool)
     idx = (obs < censor+EPS) & (np.sum(ens < censor + EPS, axis=1) > 0)
     is_sudo[idx] = True
